@@ -532,6 +532,34 @@ func init() {
 			fmt.Fprintf(&sb, "\n/-- does deleteObsoleteFiles list the family directory before it collects pending outputs / active versions' files / rollup files? -/\n")
 			fmt.Fprintf(&sb, "def listBeforeLive : Bool := %v\n", il >= 0 && first >= 0 && il < first)
 		}
+		// LRUCache.Walk: which end of the list it inspects, and that it stops at the first entry the callback rejects
+		{
+			fd, err := need(cache, "LRUCache", "Walk")
+			if err != nil {
+				return "", err
+			}
+			var shape []string
+			ast.Inspect(fd.Body, func(n ast.Node) bool {
+				switch x := n.(type) {
+				case *ast.ForStmt:
+					shape = append(shape, "for")
+				case *ast.CallExpr:
+					nm := exprName(x.Fun)
+					switch {
+					case strings.HasSuffix(nm, "evictList.Back"):
+						shape = append(shape, "evictList.Back")
+					case strings.HasSuffix(nm, "evictList.Front"):
+						shape = append(shape, "evictList.Front")
+					case nm == "fn" || nm == "c.removeElement":
+						shape = append(shape, nm)
+					}
+				case *ast.BranchStmt:
+					shape = append(shape, x.Tok.String())
+				}
+				return true
+			})
+			def("lruWalkShape", shape)
+		}
 		// the state the families of one store SHARE: the two counters live in storeVersionSet (not in
 		// familyVersion), and the reader cache is keyed by the table's file name alone (store-unique number)
 		{
